@@ -36,7 +36,12 @@ Pool == <<
   [t |-> NArr(<<NId("I"), NId("J")>>), env |-> [I |-> IntV(5), J |-> IntV(7)]],
   [t |-> NIdx(NId("Xs"), NId("I")), env |-> [Xs |-> XsV, I |-> IntV(4)]],
   [t |-> NLen(NBin("..", NId("J"), NId("I"))), env |-> [I |-> IntV(0), J |-> IntV(9)]],
-  [t |-> NBi("filter", NBin("..", NInt(1), NId("J")), NBin(">", NPtr, NId("I"))), env |-> [I |-> IntV(1), J |-> IntV(4)]]
+  [t |-> NBi("filter", NBin("..", NInt(1), NId("J")), NBin(">", NPtr, NId("I"))), env |-> [I |-> IntV(1), J |-> IntV(4)]],
+  \* allocates five elements, then fails for a reason other than the budget
+  [t |-> NIdx(NBin("..", NId("I"), NId("J")), NInt(9)), env |-> [I |-> IntV(0), J |-> IntV(4)]],
+  \* a function member that is a closure over its own environment value, in two environments
+  [t |-> NCall("VarI", <<NInt(1)>>), env |-> [I |-> IntV(10)]],
+  [t |-> NCall("VarI", <<NInt(1)>>), env |-> [I |-> IntV(20)]]
 >>
 
 VARIABLES hist,    \* sequence of pool indices
